@@ -305,7 +305,64 @@ impl<'t, 'a> FnGen<'t, 'a> {
         let g = self.globals[0].clone();
         let f = self.funcs[self.t.pick(self.funcs.len())].clone();
         let ok_args: Vec<Expr> = (0..f.params.len()).map(|_| num(1.0)).collect();
-        let (tag, stmts): (&'static str, Vec<Stmt>) = match self.t.pick(12) {
+        let (tag, stmts): (&'static str, Vec<Stmt>) = match self.t.pick(18) {
+            12 => {
+                // an `if` that is not taken and has no else still ends a block: no pronoun afterwards
+                ("pronoun_after_untaken_if", vec![Stmt::If { cond: bin(BinOp::Eq, var(&g), num(12345.0)), then: vec![say(var(&g))], els: None }, say(it())])
+            }
+            13 => {
+                // a parameter that shadows a function: calling through the name is calling a non-function
+                let sh = self.fresh();
+                (
+                    "call_through_shadowing_parameter",
+                    vec![
+                        Stmt::Function { name: sh.clone(), params: vec![f.name.clone()], body: vec![say(strlit("in")), Stmt::Return { value: call(&f.name, ok_args.clone()) }] },
+                        say(call(&sh, vec![num(5.0)])),
+                    ],
+                )
+            }
+            14 => (
+                "call_through_shadowing_block_local",
+                vec![Stmt::If { cond: lit(Lit::Bool(true)), then: vec![put(num(3.0), &f.name), say(var(&f.name)), say(call(&f.name, ok_args.clone()))], els: None }],
+            ),
+            15 => {
+                // reading an element names the array, then the index
+                let (arr, idx) = (self.fresh(), self.fresh());
+                (
+                    "pronoun_after_element_read",
+                    vec![
+                        Stmt::Push { array: pvar(&arr), value: Some(PushRhs::List(vec![num(5.0), num(6.0), num(7.0)])) },
+                        put(num(1.0), &idx),
+                        say(Expr::Primary(Primary::Subscript(Box::new(pvar(&arr)), Box::new(pvar(&idx))))),
+                        say(it()),
+                        put(Expr::Primary(Primary::Subscript(Box::new(pvar(&arr)), Box::new(pvar(&idx)))), &g),
+                        say(bin(BinOp::Plus, it(), strlit("!"))),
+                    ],
+                )
+            }
+            16 => {
+                let (arr, idx) = (self.fresh(), self.fresh());
+                (
+                    "pronoun_as_index",
+                    vec![
+                        Stmt::Push { array: pvar(&arr), value: Some(PushRhs::List(vec![num(5.0), num(6.0), num(7.0)])) },
+                        put(num(2.0), &idx),
+                        say(Expr::Primary(Primary::Subscript(Box::new(pvar(&arr)), Box::new(Primary::Ident(Ident::Pronoun))))),
+                    ],
+                )
+            }
+            17 => {
+                // a function local that shadows another function, called after the local's function returned
+                let sh = self.fresh();
+                (
+                    "function_visible_again_after_shadowing_call",
+                    vec![
+                        Stmt::Function { name: sh.clone(), params: vec![f.name.clone()], body: vec![Stmt::Return { value: var(&f.name) }] },
+                        say(call(&sh, vec![num(5.0)])),
+                        say(call(&f.name, ok_args.clone())),
+                    ],
+                )
+            }
             0 => ("pronoun_after_if", vec![Stmt::If { cond: lit(Lit::Bool(true)), then: vec![say(var(&g))], els: None }, say(it())]),
             1 => (
                 "pronoun_write_after_if",
